@@ -591,7 +591,57 @@ def rule_order2d(fx, out):
             out.append(('R19.order2d', 'order2d:%s@%s' % (sname(f), outer['loc'].rsplit(':', 2)[-2] if False else sname(f) + '/' + o_ + i_), VIOLATED if bad else HOLDS, bad or 'running counter %s: x index from the inner variable %s, y index from the outer variable %s' % (sorted(counters)[0], i_, o_), outer['loc']))
     return n
 
-RULES = [('order2d', rule_order2d), ('tmp', rule_tmp), ('acc', rule_acc), ('wguard', rule_wguard), ('wprop', rule_wprop), ('inv', rule_inv), ('own', rule_own), ('alias', rule_alias), ('shape2d', rule_shape2d), ('tuple', rule_tuple), ('life', rule_life), ('buf', rule_buf), ('str', rule_str)]
+def _top_factors(txt):
+    """factors of a product at the top level of an expression text rendered from the AST (outer parentheses removed)"""
+    t = txt.replace(' ', '')
+    while t.startswith('(') and t.endswith(')'):
+        d = 0; ok = True
+        for i, ch in enumerate(t):
+            d += ch == '('; d -= ch == ')'
+            if d == 0 and i < len(t) - 1: ok = False; break
+        if not ok: break
+        t = t[1:-1]
+    out = []; d = 0; cur = ''
+    for ch in t:
+        if ch in '([': d += 1
+        if ch in ')]': d -= 1
+        if d == 0 and ch in '+-/%?:<>=&|' : return [t]          # not a product at the top level
+        if d == 0 and ch == '*': out.append(cur); cur = ''
+        else: cur += ch
+    out.append(cur)
+    return out
+
+def rule_stride(fx, out):
+    """element k of a FixedArray / FixedVArray lives at _ptr[k * _stride] (component views such as V3fArray.x have stride 3):
+    every subscript of an array's own storage pointer in the array classes and their helpers is a product with that array's
+    _stride at the top level of the index (a local initialised with such a product counts).  Storage of another, freshly
+    constructed array (`f._ptr[i]`, stride 1) is not the subject."""
+    n = 0; seen = set()
+    for f in fx.fns:
+        if f.key in seen: continue
+        cls = f.get('cls') or ''
+        for e in f.events:
+            if e['k'] != 'store': continue
+            txt = e.get('text', '').replace(' ', '')
+            m = re.match(r'^((?:\w+\.)?)_ptr\[', txt)
+            if not m or e.get('cls') not in ('FixedArray', 'FixedVArray'): continue
+            owner = m.group(1)                      # '' (this) or '_a.' (size helper of a FixedVArray)
+            if owner not in ('', '_a.'): continue
+            seen.add(f.key); n += 1
+            idx = e.get('index', '')
+            vdecl = {v['name']: v.get('init', '') for v in f.events if v['k'] == 'vardecl'}
+            def has_stride(t, depth=0):
+                fs = _top_factors(t)
+                if any(x in (owner + '_stride', '_stride', 'this->_stride') for x in fs): return True
+                if len(fs) == 1 and re.match(r'^\w+$', fs[0]) and fs[0] in vdecl and vdecl[fs[0]] and depth < 3: return has_stride(vdecl[fs[0]], depth + 1)
+                return False
+            ok = has_stride(idx)
+            out.append(('R19.stride', 'stride:%s#%s@%s' % (sname(f), txt[:40], e.get('uses', [{}])[0].get('loc', '').split(':')[-2] if e.get('uses') else e.get('idx')), HOLDS if ok else VIOLATED,
+                        'index %s is a multiple of the array\'s stride' % idx if ok else 'the storage pointer is subscripted with %s, which is not multiplied by the array\'s _stride: on a strided view (V3fArray.x, Box3fArray.max, ...) this is a different element - of a neighbouring component' % idx,
+                        (e.get('uses') or [{}])[0].get('loc') or f['loc']))
+    return n
+
+RULES = [('stride', rule_stride), ('order2d', rule_order2d), ('tmp', rule_tmp), ('acc', rule_acc), ('wguard', rule_wguard), ('wprop', rule_wprop), ('inv', rule_inv), ('own', rule_own), ('alias', rule_alias), ('shape2d', rule_shape2d), ('tuple', rule_tuple), ('life', rule_life), ('buf', rule_buf), ('str', rule_str)]
 
 def emit(rep, out):
     seen = {}
@@ -615,7 +665,7 @@ def main(rep, ws, tier):
     for name, fnc in RULES: fnc(pos, pout)
     fired = set(r for r, oid, st, det, w in pout if st == VIOLATED)
     quiet = set(r for r, oid, st, det, w in pout if st == HOLDS)
-    need = {'R19.tmp', 'R19.acc', 'R19.wguard', 'R19.wprop', 'R19.inv', 'R19.own', 'R19.alias', 'R19.tuple', 'R19.life', 'R19.buf', 'R19.str'}
+    need = {'R19.stride', 'R19.tmp', 'R19.acc', 'R19.wguard', 'R19.wprop', 'R19.inv', 'R19.own', 'R19.alias', 'R19.tuple', 'R19.life', 'R19.buf', 'R19.str'}
     if need - fired:
         rep.fail_incomplete('positive examples (selftest/pyrules_pos.cpp) no longer fire for %s' % sorted(need - fired))
     if (need - {'R19.tmp'}) - quiet:
@@ -636,7 +686,7 @@ def main(rep, ws, tier):
     from . import c19ir
     nidx = c19ir.main_idx(rep, ws)
     rep.floor('index-arithmetic obligations (IR)', nidx, 12)
-    floors = {'shape2d': 6, 'acc': 2, 'wguard': 40, 'wprop': 15, 'inv': 3, 'own': 6, 'tuple': 8, 'life': 3, 'buf': 20, 'str': 5, 'order2d': 3}
+    floors = {'stride': 20, 'shape2d': 6, 'acc': 2, 'wguard': 40, 'wprop': 15, 'inv': 3, 'own': 6, 'tuple': 8, 'life': 3, 'buf': 20, 'str': 5, 'order2d': 3}
     for k, v in floors.items():
         rep.floor('R19.%s instances' % k, counts.get(k, 0), v)
     rep.floor('functions analysed for discarded exception objects', counts.get('tmp', 0), 3000)
